@@ -27,9 +27,21 @@ theorem padKey_length (pw : List UInt8) : (padKey pw).length = 8 := by
 /-- number of different round keys -/
 def distinctCount (l : List (List Bool)) : Nat := l.eraseDups.length
 
-set_option maxRecDepth 100000 in
-theorem refused_keys_few_subkeys :
-    ∀ k ∈ C05.gcryRefusedKeys, distinctCount (subkeys (bitsOfBytes k)) ≤ 4 := by
+/-- the two 28-bit halves C0, D0 of the key schedule (after PC-1) -/
+def keyHalves (key : List UInt8) : List Bool × List Bool :=
+  let cd := permute PC1 (bitsOfBytes key)
+  (cd.take 28, cd.drop 28)
+
+/-- Every key libgcrypt refuses has key-schedule halves that are invariant under rotation by 4 (the
+weak keys: by 1, the semi-weak ones: by 2).  The round keys are PC-2 of the halves rotated by the
+accumulated shift, so such a key has at most four different round keys. -/
+theorem refused_keys_halves_period4 :
+    ∀ k ∈ C05.gcryRefusedKeys,
+      rotl 4 (keyHalves k).1 = (keyHalves k).1 ∧ rotl 4 (keyHalves k).2 = (keyHalves k).2 := by
+  decide +kernel
+
+/-- the key of the empty password (all zero) is a weak key proper: one single round key -/
+theorem empty_password_one_subkey : distinctCount (subkeys (bitsOfBytes (vncKey []))) = 1 := by
   decide +kernel
 
 end VncModel.Des
